@@ -431,6 +431,63 @@ fn probe<L: LayoutTrait>(h: &Honest, rng: &mut Rng, rep: &mut Report, thorough: 
             }
         }
     }
+    {
+        // rare legal shapes: an output segment of exactly 1 (2) cells whose page cells sit one address
+        // too high; foreign cells appended after the output; the output block moved in front of the
+        // cells that precede it
+        let pc = fu64(&pi0.segments[0].begin_addr).unwrap_or(1);
+        let ap = fu64(&pi0.segments[1].begin_addr).unwrap_or(3);
+        let prog_len = (ap - 2).saturating_sub(pc) as usize;
+        let ob = fu64(&pi0.segments[2].begin_addr).unwrap_or(0);
+        let os = fu64(&pi0.segments[2].stop_ptr).unwrap_or(0);
+        let n_out = (os.saturating_sub(ob)) as usize;
+        for k in [1usize, 2] {
+            if n_out >= k && n >= prog_len + k {
+                // page = everything before the output block + k cells at addresses ob+1 .. ob+k
+                let mut p = clone_pi(pi0);
+                p.segments[2].stop_ptr = Felt::from(ob + k as u64);
+                p.main_page.0.truncate(n - n_out);
+                for j in 0..k {
+                    let mut c: swiftness_air::types::AddrValue = serde_json::from_value(serde_json::to_value(&pi0.main_page.0[n - n_out + j]).unwrap()).unwrap();
+                    c.address = Felt::from(ob + 1 + j as u64);
+                    p.main_page.0.push(c);
+                }
+                vedits.push((format!("output segment of exactly {k} cell(s), page cells one address too high"), p));
+                // the honest k-cell variant (control: must be accepted with the address-based hashes)
+                let mut p = clone_pi(pi0);
+                p.segments[2].stop_ptr = Felt::from(ob + k as u64);
+                p.main_page.0.truncate(n - n_out + k);
+                vedits.push((format!("output segment shortened to its first {k} cell(s), page cut accordingly"), p));
+            }
+        }
+        // empty output segment, page cut before the output block
+        {
+            let mut p = clone_pi(pi0);
+            p.segments[2].stop_ptr = p.segments[2].begin_addr;
+            p.main_page.0.truncate(n - n_out);
+            vedits.push(("empty output segment, page without output cells".to_string(), p));
+        }
+        // foreign cells after the output block
+        for extra in [1usize, 3] {
+            let mut p = clone_pi(pi0);
+            for j in 0..extra {
+                let mut c: swiftness_air::types::AddrValue = serde_json::from_value(serde_json::to_value(&pi0.main_page.0[n - 1]).unwrap()).unwrap();
+                c.address = Felt::from(900_000 + j as u64);
+                c.value = Felt::from(77 + j as u64);
+                p.main_page.0.push(c);
+            }
+            vedits.push((format!("{extra} foreign cell(s) appended after the output block"), p));
+        }
+        // the output block rotated in front of the cells that precede it (same cells, other order)
+        if n_out >= 1 && n > prog_len + n_out {
+            let mut p = clone_pi(pi0);
+            let tail: Vec<swiftness_air::types::AddrValue> = p.main_page.0.split_off(n - n_out);
+            let mid: Vec<swiftness_air::types::AddrValue> = p.main_page.0.split_off(prog_len);
+            p.main_page.0.extend(tail);
+            p.main_page.0.extend(mid);
+            vedits.push(("output block moved in front of the execution-segment cells".to_string(), p));
+        }
+    }
     for (l, p) in &vedits {
         check_verify::<L>(rep, lay, p, l, false);
     }
